@@ -821,6 +821,24 @@ func c19HostCases(name, other string, r *rand.Rand) []c19HostCase {
 	}
 }
 
+// c19HostGroup coarsens the spelling class for signatures (the exact spelling is in
+// the witness).
+func c19HostGroup(class string) string {
+	switch class {
+	case "exact":
+		return "exact"
+	case "port80", "port65535", "port0", "port-random", "empty-port", "nonnumeric-port", "very-long-port", "double-port":
+		return "port"
+	case "upper", "mixed", "mixed-port":
+		return "case"
+	case "trailing-dot", "trailing-dot-port":
+		return "trailing-dot"
+	case "ipv6", "ipv6-port", "ipv6-bare", "empty", "colon-only", "port-only":
+		return "literal"
+	}
+	return "composite"
+}
+
 func c19HostVariants(name string, r *rand.Rand, n int) []string {
 	cs := c19HostCases(name, "zz."+c19Bases[0], r)
 	var out []string
@@ -926,7 +944,7 @@ func TestVerifC19HostSpellings(t *testing.T) {
 							}
 							run.Distinct(fmt.Sprintf("%s|%s|%v", kind, hc.Class, r.Routed))
 							if class, exp := c19JudgeRoute(tr, r); class != "" {
-								sig := c19Sig(class, "host="+hc.Class, kind, tr)
+								sig := c19Sig(class, "host="+c19HostGroup(hc.Class), kind, tr)
 								run.Violation(sig, map[string]any{"class": class, "host": hc.Host, "lookup": r, "expected_owner": exp, "setup": sc.Setup, "results": results})
 								if run.Violations() >= 20 {
 									x.stop = true
